@@ -111,6 +111,44 @@ func checkC06(ctx *Ctx) {
 					mu.Unlock()
 				}
 			}
+			// every documented shorthand construct against versions of every arity (a range
+			// predicate that indexes the version's components must cope with shorter versions)
+			if se := shEcos[e.Name]; se != nil {
+				var grid []any
+				for ar := 1; ar <= 5; ar++ {
+					for _, x := range []int{0, 1, 2, 10} {
+						c := make([]int, ar)
+						for i := range c {
+							c[i] = x
+						}
+						c[0] = 1
+						for _, sfx := range append([]string{""}, se.Pre...) {
+							if pv := e.Parse(dots(se.Prefix, c...) + sfx); pv.OK {
+								grid = append(grid, pv.Val)
+							}
+						}
+					}
+				}
+				for _, gen := range se.Gen {
+					for it := 0; it < 12; it++ {
+						c := gen(r)
+						pr := e.ParseRange(c.Rng)
+						if !pr.OK {
+							continue
+						}
+						for _, gv := range grid {
+							_, pan := e.Contains(pr.Val, gv)
+							local++
+							if pan != "" {
+								sv, _ := e.Str(gv)
+								mu.Lock()
+								res.violate(Violation{Eco: e.Name, Kind: "panic", Input: map[string]any{"call": "Contains", "range": c.Rng, "version": sv}, Expected: "no panic", Actual: pan})
+								mu.Unlock()
+							}
+						}
+					}
+				}
+			}
 			// operations on accepted values
 			if len(okV) > 250 {
 				okV = okV[:250]
